@@ -30,11 +30,20 @@ def _is_slice_all(t):
     return t == ("slice", NONE, NONE, NONE)
 
 
+_WANT_SHAPE = ("tuple", (("sub", ("attr", ("sym", "self"), "shape"), C(0)), ("attr", ("sym", "self"), "block_dim")))
+
+
 def _act_payload(t):
-    """t is (a reshape of) vmap(self.activation.transform_and_log_det)(h)[1]  ->  h, else None."""
+    """t is (a reshape to (dim, block_dim) of) vmap(self.activation.transform_and_log_det)(h)[1]  ->  h, else None."""
     if t[0] == "call" and t[1] in (("ext", "jax.numpy.reshape"),):
+        shp = _kw(t).get("shape") or _kw(t).get("newshape")
+        if shp is not None and not same(shp, _WANT_SHAPE):
+            return ("badshape", shp)   # rows are the coordinates (blocks), columns the units of a block
         t = _kw(t).get("a", t)
     if t[0] == "call" and t[1][0] == "attr" and t[1][2] == "reshape":
+        shp = ("tuple", tuple(t[2])) if len(t[2]) != 1 else t[2][0]
+        if not same(shp, _WANT_SHAPE):
+            return ("badshape", shp)
         t = t[1][1]
     if t[0] == "sub" and t[2] == C(1):
         f = t[1]
@@ -127,6 +136,11 @@ def rule_bnaf_logdet(prog, rep, R="C02.bnaf"):
             rep.undecided(R, site, k, f"log-det is not a full sum: {show(ld, 160)}")
             continue
         fs = factors(_kw(ld)["a"])
+        badshape = [f for f in (fs or []) if f[0] == "diag" and isinstance(f[1], tuple) and f[1] and f[1][0] == "badshape"]
+        if badshape:
+            rep.violated(R, site, k, f"the activation log-gradients are reshaped to {show(badshape[0][1][1], 80)} before being "
+                                     f"placed on the block diagonals; rows must be the coordinates: (shape[0], block_dim)")
+            continue
         if fs is None:
             rep.undecided(R, site, k, f"log-det is not a recognised log-space matrix product: {show(_kw(ld)['a'], 200)}")
             continue
